@@ -32,14 +32,16 @@ type Write struct {
 
 // Server is the in-memory database.
 type Server struct {
-	mu      sync.Mutex
-	colls   map[string][]bson.D // insertion order
-	exists  map[string]bool     // collections that exist (even if empty)
-	conns   map[net.Conn]bool
-	dead    bool
-	ncmd    int // application commands executed so far
-	Writes  []Write
-	CmdLog  []string
+	cursors    map[int64][]bson.D // open cursors: what getMore still has to hand out
+	nextCursor int64
+	mu         sync.Mutex
+	colls      map[string][]bson.D // insertion order
+	exists     map[string]bool     // collections that exist (even if empty)
+	conns      map[net.Conn]bool
+	dead       bool
+	ncmd       int // application commands executed so far
+	Writes     []Write
+	CmdLog     []string
 	// fault plan
 	FailAt  int // fail the k-th application command (1-based; 0 = none)
 	CrashAt int // the k-th application command is the last one executed; then the server dies
@@ -323,6 +325,11 @@ func (s *Server) handleMsg(reqID uint32, body []byte) ([]byte, bool) {
 		return msgReply(reqID, bson.D{{Key: "ok", Value: float64(1)}}), false
 	}
 	coll, _ := cmd[0].Value.(string)
+	if strings.EqualFold(name, "getMore") {
+		if c, has := get(cmd, "collection"); has {
+			coll, _ = c.(string)
+		}
+	}
 	label := name + ":" + coll
 	if g := s.Gate; g != nil {
 		g(label)
@@ -793,12 +800,54 @@ func (s *Server) exec(n int, name, coll string, cmd bson.D, seqs map[string][]bs
 				out = out[:int(k)]
 			}
 		}
+		// like MongoDB: the first batch holds at most 101 documents (or batchSize), the rest is fetched with getMore
+		bs := 101
+		if v, has := get(cmd, "batchSize"); has {
+			if k, _ := num(v); k > 0 {
+				bs = int(k)
+			}
+		}
+		var cursorID int64
+		if v, has := get(cmd, "singleBatch"); !(has && truthy(v)) && len(out) > bs {
+			s.nextCursor++
+			cursorID = s.nextCursor
+			if s.cursors == nil {
+				s.cursors = map[int64][]bson.D{}
+			}
+			s.cursors[cursorID] = out[bs:]
+			out = out[:bs]
+		}
 		batch := bson.A{}
 		for _, d := range out {
 			batch = append(batch, d)
 		}
 		db, _ := get(cmd, "$db")
-		return bson.D{{Key: "cursor", Value: bson.D{{Key: "firstBatch", Value: batch}, {Key: "id", Value: int64(0)}, {Key: "ns", Value: fmt.Sprintf("%v.%s", db, coll)}}}, ok}
+		return bson.D{{Key: "cursor", Value: bson.D{{Key: "firstBatch", Value: batch}, {Key: "id", Value: cursorID}, {Key: "ns", Value: fmt.Sprintf("%v.%s", db, coll)}}}, ok}
+	case "getMore":
+		id, _ := cmd[0].Value.(int64)
+		rest, known := s.cursors[id]
+		if !known {
+			return errDoc(43, "CursorNotFound", fmt.Sprintf("cursor id %d not found", id))
+		}
+		n := len(rest)
+		if v, has := get(cmd, "batchSize"); has {
+			if k, _ := num(v); k > 0 && int(k) < n {
+				n = int(k)
+			}
+		}
+		batch := bson.A{}
+		for _, d := range rest[:n] {
+			batch = append(batch, d)
+		}
+		next := id
+		if n == len(rest) {
+			delete(s.cursors, id)
+			next = 0
+		} else {
+			s.cursors[id] = rest[n:]
+		}
+		db, _ := get(cmd, "$db")
+		return bson.D{{Key: "cursor", Value: bson.D{{Key: "nextBatch", Value: batch}, {Key: "id", Value: next}, {Key: "ns", Value: fmt.Sprintf("%v.%s", db, coll)}}}, ok}
 	case "update":
 		ups := seqs["updates"]
 		if ups == nil {
